@@ -545,8 +545,44 @@ let op_udp opidx (_impl : string list option) toks =
            | _ -> pr "obs %d udp %d dropped\n" opidx k)   (* the client block of the generated cases is 10.0.0.0/24 and 2001:db8::/64 *)
       | _ -> ()) toks
 
+(* dynext: options of a dynamic server after the lookup command's block has been merged into the template (Dyn.merge_dyn) *)
+let op_dynext opidx (_impl : string list option) toks =
+  match toks with
+  | _reply :: kvs ->
+      let k = kv kvs in
+      let g x d = get k x d in
+      let num x = n_of_int (int_of_string x) in
+      let onum x = let v = g x "-" in if v = "-" then None else Some (num v) in
+      let obool x = let v = g x "-" in if v = "-" then None else Some (v = "1") in
+      let t = { d_type = num (g "t.type" "0"); d_ri = num (g "t.ri" "255"); d_rc = num (g "t.rc" "255"); d_reqma = g "t.reqma" "0" = "1";
+                d_nc = g "t.nc" "1" = "1"; d_cnc = g "t.cnc" "0" = "1"; d_ss = num (g "t.ss" "0") } in
+      let l = { l_type = onum "l.type"; l_ri = onum "l.ri"; l_rc = onum "l.rc"; l_reqma = obool "l.reqma"; l_nc = obool "l.nc";
+                l_cnc = obool "l.cnc"; l_ss = onum "l.ss" } in
+      let b x = if x then 1 else 0 in
+      (match merge_dyn t l with
+       | Some r -> pr "obs %d dynext ok=1 type=%d ri=%d rc=%d reqma=%d nc=%d cnc=%d ss=%d\n" opidx (int_of_n r.d_type) (int_of_n r.d_ri)
+                     (int_of_n r.d_rc) (b r.d_reqma) (b r.d_nc) (b r.d_cnc) (int_of_n r.d_ss)
+       | None -> pr "obs %d dynext ok=0\n" opidx);
+      (* on the implementation's own line: each option is what was configured -- the printed block's value, else the
+         template's, else the transport default; requireMessageAuthenticator is the template's *)
+      (match _impl with
+       | Some ("dynext" :: "ok=1" :: ikv) ->
+           let ik = kv ikv in
+           let iv x = int_of_string (get ik x "-1") in
+           let ty = match l.l_type with Some x -> int_of_n x | None -> int_of_n t.d_type in
+           let want_rc = match l.l_rc with Some x -> int_of_n x | None -> if int_of_n t.d_rc <> 255 then int_of_n t.d_rc else (if ty = 0 then 2 else 0) in
+           let want_ri = match l.l_ri with Some x -> int_of_n x | None -> if int_of_n t.d_ri <> 255 then int_of_n t.d_ri else (if ty = 0 then 5 else 10) in
+           spec opidx "C12_dynamic_retry_as_configured" (iv "rc" = want_rc && iv "ri" = want_ri) (Printf.sprintf "RetryCount %d (want %d) RetryInterval %d (want %d)" (iv "rc") want_rc (iv "ri") want_ri);
+           spec opidx "C04_dynamic_reqma_as_configured" (iv "reqma" = b t.d_reqma) (Printf.sprintf "requireMessageAuthenticator %d, template %d" (iv "reqma") (b t.d_reqma));
+           spec opidx "C15_dynamic_namecheck_as_configured"
+             (iv "nc" = b (match l.l_nc with Some x -> x | None -> t.d_nc) && (iv "cnc" = 1) = (l.l_cnc = Some true))
+             (Printf.sprintf "CertificateNameCheck %d CertificateCNCheck %d" (iv "nc") (iv "cnc"))
+       | _ -> ())
+  | [] -> ()
+
 let run (opidx : int) (impl : string list option) (toks : string list) : bool =
   match toks with
+  | "dynext" :: rest -> op_dynext opidx impl rest; true
   | "udp" :: rest -> op_udp opidx impl rest; true
   | "dynsrv" :: rest -> op_dynsrv opidx impl rest; true
   | "naptr" :: rest -> op_dns opidx impl "naptr" rest; true
